@@ -89,7 +89,56 @@ def gen_operand(rng):
 
 def gen_kernel_line(rng):
     kind = rng.weighted([("fold", 30), ("merge", 14), ("trip", 16), ("flex", 12), ("order", 4), ("unwrap", 4),
-                         ("ccp", 14), ("iv", 8), ("sr", 8), ("dce", 8)])
+                         ("ccp", 14), ("iv", 8), ("sr", 8), ("dce", 8), ("lvn", 10), ("cse", 6)])
+    if kind == "cse":
+        pool = [(rng.pick([o for o in OPS if o != "sub"]), f"v{rng.below(2)}", rng.pick(["v0", "v1", f"i{rng.range(1, 5)}"])) for _ in range(4)]
+        nv = [2]
+        def blk():
+            t = []
+            for _ in range(rng.range(0, 4)):
+                if rng.chance(1, 4):
+                    t += ["p", f"v{rng.below(2)}"]
+                else:
+                    o, a, b = rng.pick(pool)
+                    t += ["b", f"v{nv[0]}", o, a, b]; nv[0] += 1
+            return t
+        return ["cse " + " ".join(blk() + ["/"] + blk())]
+    if kind == "lvn":
+        # SSA block / loop body with duplicated computations whose copies feed every consuming position
+        toks, nv, exprs = [], 2, []
+        def opd(n):
+            return f"v{rng.below(n)}" if rng.chance(3, 4) else f"i{rng.range(-3, 9)}"
+        def simple(n, allow_def):
+            nonlocal nv
+            k = rng.below(10)
+            if k < 2: return ["p", opd(n)], n
+            if k < 3: return ["k", opd(n)], n
+            if exprs and k < 6:
+                o, a, b = rng.pick(exprs)            # duplicate of an available computation
+            else:
+                o, a, b = rng.pick(OPS), opd(n), opd(n)
+                exprs.append((o, a, b))
+            x = nv; nv += 1
+            return ["b", f"v{x}", o, a, b], nv
+        for _ in range(rng.range(2, 9)):
+            if rng.chance(1, 4):
+                inner, saved = [], list(exprs)
+                n_in = nv
+                for _ in range(rng.range(1, 3)):
+                    st, _ = simple(nv, True)
+                    inner += st
+                if rng.chance(1, 2): inner += ["k", f"v{nv - 1}"]
+                toks += ["[", f"v{rng.below(n_in)}", str(rng.below(2))] + inner + ["]"]
+                exprs[:] = saved
+                # names defined inside are out of scope afterwards: never referenced again (nv keeps growing,
+                # operands are drawn below n_in only for the next statement)
+                hidden = nv
+                st, _ = simple(n_in, True)
+                toks += st
+            else:
+                st, _ = simple(nv, True)
+                toks += st
+        return ["lvn " + " ".join(toks)]
     if kind == "dce":
         toks, nv = [], 2
         for _ in range(rng.range(1, 9)):
@@ -346,7 +395,8 @@ def nontrivial_kernel(line, ans):
     if k == "ccp": return ans.startswith("bind") or ans != "stmt " + " ".join(line.split()[1:])
     if k == "ivloop": return ans.startswith("out ") and not ans.startswith("out - ")
     if k == "srloop": return ans.startswith("out ") and ans != "out -"
-    if k == "licm": return ans != "hoisted -"
+    if k in ("licm", "cse"): return ans != "hoisted -"
+    if k == "lvn": return ans.count(" b ") + ans.startswith("b ") < line.count(" b ")
     if k == "dce": return line.count(" b ") > (0 if ans == "kept -" else ans.count(",") + 1)
     return False
 
@@ -1173,6 +1223,27 @@ def search_near(ctx, line):
             for b in toks:
                 if t[0] == "ccp" or True:
                     cands.append(f"{t[0]} {t[1]} {a} {b}")
+    elif t[0] == "lvn":
+        # property-level search: one small program per consuming position downstream of a deleted duplicate
+        progs = [
+            "fn f0 2 while 1 i 0 ni { bin t mul i i bin c gt t p1 sif c 0 { bin u mul i i brk u } bin ni add i 1 } r ret r end",
+            "fn f0 2 bin t mul p0 p0 bin u mul p0 p0 call print 1 u _ ret t end",
+            "fn f0 2 bin t mul p0 p0 bin u mul p0 p0 ret u end",
+            "fn f0 2 bin t mul p0 p0 bin c gt p0 p1 if c { bin u mul p0 p0 } { } 1 f u 7 ret f end",
+            "fn f0 2 bin t mul p0 p0 bin u mul p0 p0 bin w add u 1 ret w end",
+            "fn f0 2 bin t mul p0 p0 bin u mul p0 p0 while 1 i u ni { bin c ge i 40 sif c 0 { brk i } bin ni add i 7 } r ret r end",
+            "fn f0 2 bin t mul p0 3 while 2 i 0 ni l 0 nl { bin c ge i 3 sif c 0 { brk l } bin nl mul p0 3 bin ni add i 1 } r ret r end",
+            "fn f0 2 bin t eq p0 p1 bin u eq p0 p1 sif u 0 { call print 1 1 _ } ret t end",
+        ]
+        lines = [f"prog lvn 31 | 3,5;2,2;6,20 | {pt}" for pt in progs]
+        outs = run_harness(lines)
+        for l, o in zip(lines, outs):
+            if not o.startswith("ok "):
+                ctx.violation(f"local value numbering changes behaviour: {o[:200]}",
+                              {"protocol": "prog", "pass": "lvn", "config_bits": 31, "args": [(3, 5), (2, 2), (6, 20)],
+                               "program": l.split("|", 2)[2].strip(), "answer": o})
+                return True
+        return False
     elif t[0] in ("srloop", "srorig"):
         for a0, b0 in ((0, 7), (3, -2), (5, 5)):
             for sa, sb in ((1, 5), (2, -1)):
@@ -1370,12 +1441,12 @@ def run(ctx):
         "source_program_lines_compared": sstats["lines"],
         "source_programs_changed_by_pass": len(sstats["changed"]),
         "source_sample": src_sample,
-        "rule": "kernel lines (fold/tgt/merge/trip/flex/order/unwrap/ccp/ivloop/ivorig) over a boundary-heavy 32-bit distribution "
+        "rule": "kernel lines (fold/tgt/merge/trip/flex/order/unwrap/ccp/ivloop/ivorig/srloop/srorig/dce/licm/lvn/cse) over a boundary-heavy 32-bit distribution "
                 "(0, +-1, +-2, MIN, MIN+1, MAX, MAX-1, powers of two, sqrt(MAX), random) answered by the real functions/passes and by the Lean model; "
                 "generated int-only MIR programs (straight-line, if/else with phis, single-if, counting loops of all four guard kinds and both stride "
-                "signs, empty loops for the closed form, IV-elimination candidates, loops with 2-3 basic induction variables with distinct literal/parameter starts and derived variables of any of them live in prints/calls/accumulators, helper functions for inlining) run before/after each single pass, "
+                "signs, empty loops for the closed form, IV-elimination candidates, loops with 2-3 basic induction variables with distinct literal/parameter starts and derived variables of any of them live in prints/calls/accumulators, duplicated pure computations whose copy feeds every consuming position (call argument, operand, condition, if/else final assignment, break value, loop initial/loop value, return value), helper functions for inlining) run before/after each single pass, "
                 "the per-function round driver and optimize_sources (quick: 2 of the 32 configurations per program, thorough: all 32) over 8 argument "
-                "tuples incl. MIN/MAX; MIR compiled from generated samlang sources (tail-recursive functions with several counters) through the real front end, run before/after every pass. Non-trivial = distinct kernel line on which a non-default rule fired (folded / merged / reordered / positive trip "
+                "tuples incl. MIN/MAX; MIR compiled from generated samlang sources (tail-recursive functions with several counters, functions whose exit value recomputes / logs the expression of their exit test) through the real front end, run before/after every pass. Non-trivial = distinct kernel line on which a non-default rule fired (folded / merged / reordered / positive trip "
                 "count / bind / loop with >=1 iteration) plus distinct (program, pass, config) whose MIR text was actually changed by the pass.",
         "samples": ksample + samples,
         "traces_validated_against_impl": len(lines),
@@ -1396,8 +1467,10 @@ def run(ctx):
         },
         "full_strength_theorems": ["fold_exact", "fold_never_panics", "binaryUnwrapped_sound", "flexibleOrder_sound", "flexUnwrapped_sound",
                                    "strength_sound", "strength_multi_sound", "strength_multi_trace", "loopopt_strength_path_sound",
-                                   "tripcount_exact", "tripcount_final_value", "dce_preserves", "licm_no_new_trap"],
-        "pending": ["cse_hoist_order on a mini statement language (CSE is validated by the oracle only)",
+                                   "tripcount_exact", "tripcount_final_value", "dce_preserves", "licm_no_new_trap",
+                                   "lvnSimple_preserves", "lvn_preserves", "lvnL_preserves", "cse_hoist_order"],
+        "pending": ["CSE: only trap-freedom/silence of the hoisted prefix is proved (cse_hoist_order); value equivalence of the rewritten branches is validated only",
+                    "lvn for IfElse final assignments / nested While / loop values (proved: blocks of Binary, call, Break and SingleIf with statement bodies)",
                     "dce_preserves / licm for nested if/while (proved for straight-line blocks / loop bodies of Binary + call statements)",
                     "LICM permutation equivalence (hoisted ++ kept behaves like the body); only trap-freedom of the hoisted prefix is proved",
                     "inlining, LVN, scalar replacement, unused-name elimination, CCP/loop drivers: validated, not modelled"],
